@@ -14,8 +14,8 @@ from ..sexp import Q
 
 MANIFEST = dict(
     text=('Theorems C07_quote_roundtrip / C07_bash_total / C07_fish_total / C07_zsh_total (Props/C07.v): for '
-          'every shell, every string outside the shell\'s hazard class (empty for bash, fish and zsh; pwsh: the UTF-8 prefix '
-          'E2 80) and every continuation of the script, the independent '
+          'every shell, every string outside the shell\'s hazard class (empty for bash, fish and zsh; pwsh: strings with a smart '
+          'double quote U+201C/D/E, C07_pwsh_exact) and every continuation of the script, the independent '
           'transcription of the shell\'s documented double-quote rule (Spec/ShellDQ.v) reads make_string_constant(s) back as '
           'exactly s and stops right after it -- nothing expanded, cut or swallowed. Proof: single-character replace chains act '
           'characterwise + generic induction over adjacent byte pairs + one closed vm_compute sweep of 256x257 pairs per shell '
@@ -48,7 +48,9 @@ def bash_hazard(s):
 
 
 def pwsh_hazard(s):
-    return '\xe2\x80' in s
+    """a smart double quote U+201C/U+201D/U+201E (UTF-8 E2 80 9C/9D/9E): the exact class of the known pwsh finding
+    (routing only; the classification uses the extracted ShellDQ.outside_known_class)"""
+    return any(q in s for q in ('\xe2\x80\x9c', '\xe2\x80\x9d', '\xe2\x80\x9e'))
 
 
 def random_string(r, alpha, lo, hi, special=0.5):
